@@ -56,12 +56,15 @@ class Prop:
     def new_listener(self, script):
         i = self.next_id
         self.next_id += 1
-        self.ls[i] = {"kind": "L", "script": "" if script == "-" else script, "pc": 0, "state": "new", "exp": None, "tainted": False}
+        self.ls[i] = {"kind": "L", "script": "" if script == "-" else script, "pc": 0, "state": "new", "exp": None, "tainted": False,
+                      "conn": True}       # conn: its emitter denotes the signal (False: an emitter without state)
         return i
 
     def await_emitter(self, i, evs, connected=True):
         l = self.ls[i]
-        if connected and self.alive:
+        if not connected:
+            l["conn"] = False
+        if l["conn"] and self.alive:
             l["state"] = "waiting"
             return
         e = self.pop(evs, i)
@@ -193,9 +196,31 @@ class Prop:
                 for j in queued:
                     self.resume(j, evs)
             return
-        if k == "listen":
+        if k in ("listen", "alisten"):
             i = self.new_listener(w[1])
             self.await_emitter(i, evs)
+        elif k == "assign":
+            # emitter::operator= while the listener is busy elsewhere: only what its emitter denotes changes; the harness
+            # says bad-op when the target is not at its gate / has no reachable emitter / the source does not exist
+            if head and head[0] == "assign":
+                l = self.ls.get(int(w[1]))
+                if l is None or l["kind"] != "L" or l["state"] != "gated":
+                    self.msgs.append("harness: assign accepted for a listener that is not busy at its gate")
+                elif w[2] == "live":
+                    l["conn"] = True
+                elif w[2] in ("none", "moved"):
+                    l["conn"] = False
+                elif w[2] == "copy":
+                    l["conn"] = self.ls[int(w[3])]["conn"]
+        elif k == "connect0":
+            # connect() through a signal object that has no state: nothing to wait for, released at once, never called
+            i = self.next_id
+            self.next_id += 1
+            self.ls[i] = {"kind": "C", "left": int(w[1]), "state": "done"}
+            e = self.pop(evs, i)
+            if e != "free":
+                self.msgs.append("callback-release: C%d connected through a signal without state was not released at once "
+                                 "(observed %s)" % (i, e))
         elif k == "listen0":
             i = self.new_listener(w[1])
             self.await_emitter(i, evs, connected=False)
@@ -282,7 +307,7 @@ def run_prop(case, out):
     for opl, line in zip(case["lines"][1:], out):
         w = opl.split()
         head, evs, kinds = parse_line(line)
-        if head and head[0] == "bad-op" and w[0] not in ("emit", "connect", "newcol", "newsig", "drop", "wake", "flush") and not p.hook_pending:
+        if head and head[0] == "bad-op" and w[0] not in ("emit", "connect", "newcol", "newsig", "drop", "wake", "flush", "assign") and not p.hook_pending:
             p.msgs.append("harness: unexpected bad-op for %r" % opl)
         p.op(w, head, evs)
         for i, kd in kinds.items():
@@ -334,6 +359,8 @@ class SigSuite(Suite):
             return rng.choice(FLAVOURS)
 
         def listen(kind="listen"):
+            if kind == "listen" and rng.random() < 0.2:
+                kind = "alisten"
             sc = script()
             if "g" in sc:
                 gate_ids.append(st["nlist"])
@@ -436,10 +463,22 @@ class SigSuite(Suite):
                         st["dead"] = True
                 elif rng.random() < 0.1:
                     lines.append("drop %d" % rng.randint(0, len(hs)))
-            elif r < 0.92:
+            elif r < 0.905:
                 lines.append("flush")
-            elif r < 0.95:
+            elif r < 0.92:
+                if gate_ids and rng.random() < 0.9:
+                    tgt = rng.choice(gate_ids)
+                else:
+                    tgt = rng.randint(0, max(st["nlist"], 1))
+                src = rng.choice(["live", "live", "none", "moved", "self", "copy %d" % rng.randint(0, max(st["nlist"], 1))])
+                lines.append("assign %d %s%s" % (tgt, src, " mv" if src in ("live", "none", "moved") and rng.random() < 0.3 else ""))
+                if rng.random() < 0.7:
+                    lines.append("wake %d" % tgt)
+            elif r < 0.94:
                 lines.append("listen0 %s" % script())
+                st["nlist"] += 1
+            elif r < 0.95:
+                lines.append("connect0 %d" % rng.choice([0, 1, 5]))
                 st["nlist"] += 1
             else:
                 listen()
@@ -475,6 +514,9 @@ class SigSuite(Suite):
                         flav[key] = flav.get(key, 0) + 1
                 if w[0] == "tlisten":
                     st["thread_subscribed_listeners"] += len(w) - 1
+                if w[0] == "assign":
+                    key = "assign/" + w[2] + ("/mv" if w[-1] == "mv" else "")
+                    flav[key] = flav.get(key, 0) + 1
                 if w[0] in ("hlisten", "hlisten0"):
                     ne = sum(1 for t in w[2:] if t.count(":") == 2)
                     key = "hook_up/%d-emits-in-registration/%s" % (ne, "drop" if (w[0] == "hlisten0" or "drop" in w[2:]) else "keep")
@@ -483,6 +525,7 @@ class SigSuite(Suite):
             txt = " ".join(o)
             st["callback_frees"] += txt.count(":free")
             st["bad_ops"] += sum(1 for l in o if l.startswith("bad-op"))
+            st["assigns_accepted"] = st.get("assigns_accepted", 0) + sum(1 for l in o if l.startswith("assign"))
             try:
                 p = run_prop(c, o)
                 st["values_delivered"] += p.deliveries
